@@ -52,6 +52,7 @@
 	X(stall_rate, 0)    /* per-100000 sps chance to start a stall */                                              \
 	X(stall_len, 2000)                                                                                             \
 	X(clk_den, 4)       /* clock advances 1us every clk_den scheduling points; 0 = only idle jumps */             \
+	X(clk_step, 1)      /* microseconds added per clock tick */                                                  \
 	X(clk_jump_rate, 0) /* per-100000 */                                                                          \
 	X(clk_back, 0)      /* allow small backward steps */                                                          \
 	X(stop_at, 0)       /* inject RootsimStop at this decision index (0 = never) */                               \
